@@ -8,6 +8,7 @@ import (
 	"encoding/json"
 	"errors"
 	"fmt"
+	"net"
 	"os"
 	"path/filepath"
 	"runtime"
@@ -201,6 +202,23 @@ func runReattachCase(c raCase, bin, tmp string) []map[string]interface{} {
 			} else {
 				res = "err:" + err.Error()
 			}
+		case "Ghost":
+			// another host connects and vanishes without a shutdown request: the raw connection is closed under
+			// a protocol client that never says goodbye
+			if cfg != nil {
+				conn, err := net.DialTimeout(cfg.Addr.Network(), cfg.Addr.String(), 2*time.Second)
+				if err == nil {
+					if cfg.Protocol == plugin.ProtocolNetRPC {
+						if rc, err := plugin.NewRPCClient(conn, hostSet()); err == nil {
+							rc.Ping()
+						}
+					}
+					time.Sleep(20 * time.Millisecond)
+					conn.Close()
+					time.Sleep(150 * time.Millisecond)
+				}
+			}
+			res = "gone"
 		case "Freeze":
 			if pid != 0 {
 				syscall.Kill(pid, syscall.SIGSTOP)
